@@ -32,6 +32,13 @@ Emit ==
         dvalues |-> IF sc.d >= 1 THEN Tup([j \in 1..Len(pts) |-> SplineAt(xi, sc.d - 1, DerCoef(xi, sc.d, c), pts[j])]) ELSE <<>>,
         ddvalues |-> IF sc.d >= 2 THEN Tup([j \in 1..Len(pts) |-> SplineAt(xi, sc.d - 2, DerCoef(xi, sc.d - 1, DerCoef(xi, sc.d, c)), pts[j])]) ELSE <<>>,
         greville |-> Greville(xi, sc.d),
+        \* the spline at the collocation times of DirectCollocation(M=3, degree=2, radau): fractions (l + tau_j) / 3 of every interval
+        \* (the end of the interval seen from inside, cf. quad2)
+        colvals |-> Tup([k \in 1..sc.N |->
+                      LET h == Sub(xi[k + 1], xi[k])
+                          fr == <<Q(1, 9), Q(1, 3), Q(4, 9), Q(2, 3), Q(7, 9), One>>
+                      IN Tup([j \in 1..6 |-> IF j = 6 /\ sc.d = 0 THEN SplineAt(xi, sc.d, c, Add(xi[k], Mul(Q(7, 9), h)))
+                                              ELSE SplineAt(xi, sc.d, c, Add(xi[k], Mul(fr[j], h)))])]),
         \* integral of c(t)^2 over normalised time by the radau-2 collocation quadrature on every interval (nodes 1/3 and 1,
         \* weights 3/4 and 1/4): what DirectCollocation(degree=2, scheme='radau') makes of ocp.integral(v^2) for a B-spline signal v
         quad2 |-> SumSeq(Tup([k \in 1..sc.N |->
